@@ -89,7 +89,17 @@ def gen(rng, k):
     if rng.random() < 0.3 and sc['recv_kinds'][0] == 'normal':
         sc['recv_sends'] = dict(dtcs=[[rng.getrandbits(19), rng.getrandbits(5), rng.getrandbits(7)]], cycle=rng.choice([60000, 170000, 333000]))
     fam = k % 6
-    if fam == 5:
+    if fam == 0 and n >= 2 and dll == 'j1939-21' and k % 12 == 0:
+        # one frame of a multi-packet DM1 is lost on the bus, and the next DM1 is announced before the receivers have given the
+        # incomplete one up (cycle below T1 = 750 ms after the transfer): what arrives later is still what ONE call supplied
+        sc['varying'] = True
+        sc['lossy'] = True
+        sc['lose_frame'] = rng.randint(2, 1 + npk)
+        sc['cycle'] = transfer + rng.choice([60000, 150000, 300000])
+        sc['stop'] = 1000 + sc['cycle'] * rng.choice([3, 4]) + 1000
+        sc['horizon'] = sc['stop'] + 2 * transfer + 2_000_000
+        sc.pop('recv_sends', None)
+    elif fam == 5:
         # a second start_send on the same Dm1 object, other callback, other cycle time: both keep running until their own stop_send
         sc['dtcs'] = sc['dtcs'][:1]
         sc['cycle'] = rng.choice([100000, 250000])
@@ -125,6 +135,8 @@ def runner(sc):
     import vts, stack, j1939
     sim = vts.Sim(jitters=[1])
     sim.latency = lambda c, s, d: sc['lat'][c % len(sc['lat'])]
+    if sc.get('lose_frame'):
+        sim.faults = [dict(drop=sc['lose_frame'])]
     res = scen.Result()
     try:
         A = stack.Stack(sim, sc['dll'], 3)
@@ -242,6 +254,15 @@ def oracle(sc, res):
         # "until stop_send": when the last DM1 has gone out nothing of the service is left behind — no transport session, no session
         # number still taken
         v.append(dict(kind='dm1-sender-or-receiver-not-idle-afterwards', tables_empty=list(res.empty)))
+    if sc.get('lossy'):
+        for j, js in enumerate(res.job):
+            if js != 'alive':
+                v.append(dict(kind='job-thread-' + js, stack=j))
+        for i in range(sc['nrecv']):
+            n_i = sum(1 for g in res.got if g[1] == i and g[2] == 0x20)
+            if n_i < len(before) - 1:
+                v.append(dict(kind='dm1-deliveries-after-one-lost-frame', receiver=i, cycles=len(before), observed=n_i))
+        return v
     if sc.get('overlap') or sc.get('stop_mode') in ('timer', 'self'):
         # cycles that fire while a DM1 is in flight are refused; the per-cycle counts below do not apply
         for j, js in enumerate(res.job):
@@ -275,7 +296,7 @@ def run(out, tier, rng, work):
     out.rule = ('item-level correspondence of the DTC/lamp/DM22/DM1-payload definitions (generated + Dm1Model) against the real classes; '
                 'codec oracle against plain-arithmetic J1939-73 layouts (all 5^4 lamp combinations, bit-walking SPN/FMI/OC); end to end: a real '
                 'DM1 sender with 1..440 trouble codes and 1-2 real DM1 subscribers on J1939-21 stacks, several cycle times, stop_send: every '
-                'delivery equals what the callback supplied, one per cycle until stop_send, none after; non-trivial = every case'
+                'delivery equals what the callback supplied, one per cycle until stop_send, none after; a family with one frame of a multi-packet DM1 lost on the bus; non-trivial = every case'
                 ' Receivers that never claimed an address; a first subscriber that sorts/empties what it is handed; a second start_send on the same Dm1 object.')
     out.assumptions = ['cycle time >= transfer time (a BAM in flight refuses the next DM1)', 'A1-A6 of DESIGN.md section 3',
                        'the cyclic-send state machine (start_send/stop_send + timer) is checked on the real code by the oracle and through C12\'s timer theorems; it is not part of a replayed Coq model']
